@@ -66,40 +66,6 @@ theorem run_read {α : Type} (n : Nat) (k : Except RErr Bytes → Prog α) (rest
   · rfl
   · split <;> rfl
 
-/-! ### what the protocol prescribes for the length of each segment, given the preceding definitions (from `FitFormat`) -/
-
-/-- one step of the walk over the reported segments: the table of live definitions (`FitFormat.Defs`) after the
-segment, or `none` if the segment does not have the prescribed shape and length -/
-def lenStep (st : Option FitFormat.Defs) (s : Seg) : Option FitFormat.Defs :=
-  match st with
-  | none => none
-  | some defs =>
-    if s.flag = rawFlagFileHeader then
-      -- a file header is as long as its first byte says, 12 or 14; definitions do not survive a sequence
-      if (s.bytes.headD 0 = 12 ∨ s.bytes.headD 0 = 14) ∧ s.bytes.length = s.bytes.headD 0 then some FitFormat.Defs.empty else none
-    else if s.flag = rawFlagMesgDef then
-      match s.bytes with
-      | h :: body =>
-        match FitFormat.parseDefinition h 0 body with
-        | some (r, []) =>
-          if FitFormat.isDefinition h ∧ r.len = s.bytes.length
-          then some (defs.set r.localNum (FitFormat.sizeSum r.fields + FitFormat.sizeSum r.devFields)) else none
-        | _ => none
-      | [] => none
-    else if s.flag = rawFlagMesgData then
-      match s.bytes with
-      | h :: payload =>
-        if !FitFormat.isDefinition h ∧ defs (FitFormat.localNum h) = some payload.length then some defs else none
-      | [] => none
-    else if s.flag = rawFlagCRC then
-      if s.bytes.length = 2 then some defs else none
-    else none
-
-/-- every segment has the length the protocol prescribes given the preceding definitions -/
-def lengthsOK (segs : List Seg) : Bool := (segs.foldl lenStep (some FitFormat.Defs.empty)).isSome
-
-def flat (segs : List Seg) : Bytes := segs.flatMap (·.bytes)
-
 theorem flat_append (a b : List Seg) : flat (a ++ b) = flat a ++ flat b := by simp [flat]
 
 /-- raw's table against the spec's table -/
